@@ -150,7 +150,15 @@ def cases(draw):
         spec["entry"] = draw(st.sampled_from(["direct", "direct", "hyperopt"]))
         spec["params"] = draw(space_strategy(m))
     else:
-        spec["entry"] = draw(st.sampled_from(["linear", "ssa", "edge", "edge_tree", "partial"]))
+        spec["entry"] = draw(st.sampled_from(["linear", "ssa", "edge", "edge_tree", "partial", "pair", "pair"]))
+        # for "pair": two explicit forms in sequence through one entry point,
+        # each given as a list or as a tuple (dispatch on the type is cached)
+        spec["pair"] = [
+            [draw(st.sampled_from(["linear", "edge"])), draw(st.sampled_from(["list", "tuple"]))]
+            for _ in range(2)
+        ]
+        spec["pair_entry"] = draw(st.sampled_from(["path", "tree"]))
+        spec["canonicalize"] = draw(st.booleans())
         spec["path"] = draw(gen.linear_paths(n)) if n > 1 else []
         labels = list(net["sizes"])
         k = draw(st.integers(0, len(labels)))
@@ -261,6 +269,13 @@ def run_case(spec, sub=None):
             if name in EXPONENTIAL and n > 9:
                 skipped = True
                 return None
+            if name in ("auto", "auto-hq") and n > 9:
+                # below their hardness cutoff these presets run the exponential
+                # dynamic programme: slow by design, not a termination question
+                hardness = n**2 * (sum(map(len, inputs)) / n) ** 0.5
+                if hardness < (250 if name == "auto" else 650):
+                    skipped = True
+                    return None
             e = spec["entry"]
             if e == "path":
                 return "path", ctg.array_contract_path(inputs, output, sizes, optimize=name, cache=False)
@@ -318,6 +333,28 @@ def run_case(spec, sub=None):
                 return "tree", ctg.ContractionTree.from_path(
                     inputs, output, sizes, path=path[: spec["cut"]], autocomplete=True
                 )
+        if e == "pair":
+            if n < 3 or not spec["edge"]:
+                skipped = True
+                return None
+            ctg.interface._find_path_handlers.clear()
+            ctg.interface._find_tree_handlers.clear()
+            outs = []
+            for form, typ in spec["pair"]:
+                if form == "linear":
+                    opt = [tuple(p) for p in path]
+                else:
+                    opt = list(spec["edge"])
+                opt = tuple(opt) if typ == "tuple" else list(opt)
+                with warnings.catch_warnings():
+                    warnings.simplefilter("ignore")
+                    if spec["pair_entry"] == "path":
+                        r = ctg.array_contract_path(inputs, output, sizes, optimize=opt, cache=False, canonicalize=spec["canonicalize"])
+                        outs.append(("path_edge" if form == "edge" else "path", r))
+                    else:
+                        r = ctg.array_contract_tree(inputs, output, sizes, optimize=opt, canonicalize=spec["canonicalize"])
+                        outs.append(("tree", r))
+            return "many", outs
         if not spec["edge"]:
             skipped = True
             return None
@@ -351,16 +388,18 @@ def run_case(spec, sub=None):
             kind, val = res
             if kind == "both":
                 items = [("path", val[0]), ("tree", val[1])]
+            elif kind == "many":
+                items = list(val)
             else:
                 items = [(kind, val)]
             for k, v in items:
-                if k == "path":
+                if k in ("path", "path_edge"):
                     try:
                         v = [tuple(s) for s in v]
                     except TypeError:
                         viol.append(f"{what}: path is not a sequence of steps: {v!r}")
                         continue
-                    if fam == "explicit" and spec["entry"] == "edge":
+                    if k == "path_edge" or (fam == "explicit" and spec["entry"] == "edge"):
                         # an edge path only contracts the labels it names: the
                         # steps must be valid, and leave exactly as many
                         # tensors as the reference simulation of that order
